@@ -9,6 +9,7 @@ EXPLANATION = ("C20: every allocation result is NULL-tested before it is derefer
                "themselves; no (rv = f() != K) precedence slips; out-parameters are not read after the callee failed; "
                "local allocations are released on the exits taken when a later step fails."
                " Also: a destroyer that runs the fini slot is called only after the init slot (R8); an object a failing constructor step left registered is not freed (R9); transport teardown slots tolerate the state p_init leaves (R10); init slots do not release what fini releases again (R11); container growth is failure-atomic (R12); half-built reference-counted objects are released with the raw free (R13).")
+EXPLANATION += " Round 8: no error return after a fresh allocation was stored in the caller's out-parameter unless it is released on the way (R26)."
 EXPLANATION += ' Round 3: a local allocation or delivered object is released or handed on along every path (R6); an owned field is released only after its replacement was allocated (R14).'
 EXPLANATION += " Round 5: a constructor that hands its half-built object to the reaper has stored every field the reap function dereferences (R18)."
 EXPLANATION += " A failed step does not leave NULL in a field that other calls on the object use (R19); a receive buffer cut down for one datagram is restored on every way out (R20)."
@@ -2117,6 +2118,74 @@ def rule_r25(ctx):
         raise AnalysisBroken("only %d status codes kept in locals found" % n)
 
 
+# ---------------------------------------------------------------------------
+# R26: an error return does not leave a fresh allocation in the caller's out-parameter
+
+
+def rule_r26(ctx):
+    r = ctx.rule("C20.R26", "T4", "an error return does not leave a fresh allocation behind in the caller's out-parameter: where a "
+                 "function stores a block it has just allocated through a pointer-to-pointer parameter (*out = obj), no error "
+                 "return is reachable after that store unless the block is released on the way -- a caller that is told the call "
+                 "failed has nothing to destroy, so the block is leaked (and *out points at a half-made object)", floor=25)
+    r.follows_values = True
+    import re
+    from .. import guards as G
+    prog = ctx.prog
+    n = 0
+    for f in prog.functions:
+        if f.cfg_failed:
+            continue
+        pp = {p["n"] for p in f.params if p.get("t", "").count("*") >= 2}
+        if not pp:
+            continue
+        errs = None
+        for t in f.assigns():
+            l = f.expand(t.node["lhs"])
+            if not (l.get("k") == "un" and l.get("op") == "*" and l["e"].get("k") == "var" and l["e"]["n"] in pp):
+                continue
+            rhs = f.expand(t.node["rhs"])
+            while rhs is not None and (rhs.get("k") == "cast" or (rhs.get("k") == "un" and rhs.get("op") in ("(cast)", "()"))):
+                rhs = rhs["e"]
+            if rhs is None or rhs.get("k") != "var" or rhs.get("vk") != "local":
+                continue
+            x = rhs["n"]
+            fresh = [a for a in f.assigns() if a.node["lhs"].get("k") == "var" and a.node["lhs"]["n"] == x and any(
+                m.get("k") == "call" and m.get("fn") in ("nni_zalloc", "nni_alloc", "nni_strdup")
+                for m in walk(f.expand(a.node["rhs"]) or {}))]
+            if not fresh:
+                continue
+            n += 1
+            if errs is None:
+                errs = []
+                for s in f.sites():
+                    if s.node.get("k") != "ret" or s.node.get("e") is None:
+                        continue
+                    v = f.expand(s.node["e"])
+                    while v is not None and v.get("k") == "cast":
+                        v = v["e"]
+                    if v is None or const_of(v) == 0:
+                        continue
+                    if v.get("k") == "var":
+                        nz = G.nz_edges(f, lambda q, nm=v["n"]: (q.get("k") == "var" and q["n"] == nm) or
+                                        (q.get("k") == "asg" and q["lhs"].get("k") == "var" and q["lhs"]["n"] == nm))
+                        if not (nz and G.dominated(f, (s.b, s.i), nz)):
+                            continue
+                    errs.append(s)
+            rel = {(c.b, c.i) for c in f.calls() if re.search(r"(free|fini|destroy|rele|close|reap)", c.node.get("fn") or "") and any(
+                m.get("k") == "var" and m["n"] == x for a in c.node["args"] for m in walk(f.expand(a) or {}))}
+            seen = f.reach((t.b, t.i + 1), blocked=lambda b, i, e: (b, i) in rel)
+            bad = [s for s in errs if (s.b, s.i) in seen]
+            if bad:
+                ctx.fail(r, f, "error return with a fresh allocation left in *%s" % l["e"]["n"], bad[0].line,
+                         "%s stores the block it allocated (%s) in *%s at line %s and can then return an error (line %s) without "
+                         "releasing it: the caller has been told the call failed and will not destroy anything"
+                         % (f.name, x, l["e"]["n"], t.line, bad[0].line))
+            else:
+                r.ob(f, "%s: *%s = %s (line %s) is not followed by an error return that keeps the block" % (f.name, l["e"]["n"], x, t.line))
+    if n < 25:
+        raise AnalysisBroken("only %d stores of a fresh allocation into an out-parameter found" % n)
+
+
 def run(ctx):
     ctx.guard(rule_r1)
     ctx.guard(rule_r2)
@@ -2142,3 +2211,4 @@ def run(ctx):
     ctx.guard(rule_r23)
     ctx.guard(rule_r24)
     ctx.guard(rule_r25)
+    ctx.guard(rule_r26)
